@@ -158,6 +158,9 @@ func (e *Exec) builtin(t *Thread, clo *Closure, args []Value, granted bool) (Val
 	case "len":
 		switch x := args[0].(type) {
 		case Slice:
+			if x.Arr != nil && x.Arr.Lazy != nil {
+				e.sliceArr(x)
+			}
 			return c.BVConst(64, uint64(x.Len)), true
 		case *Str:
 			if x.Opaque {
@@ -179,6 +182,9 @@ func (e *Exec) builtin(t *Thread, clo *Closure, args []Value, granted bool) (Val
 	case "cap":
 		switch x := args[0].(type) {
 		case Slice:
+			if x.Arr != nil && x.Arr.Lazy != nil {
+				e.sliceArr(x)
+			}
 			return c.BVConst(64, uint64(x.Cap)), true
 		case *Array:
 			return c.BVConst(64, uint64(len(x.E))), true
